@@ -32,6 +32,31 @@ CHECKS = {
         text="C02_merge_* prove that both update_bounds variants stay within the enforced interval for all (possibly infinite, possibly inconsistent) bounds; C02_store_only_shrinks lifts this to every sequence of store updates; C02_hard_contains_solution / C02_hard_bounds_attainment / C02_minimize_retained prove that the constraint retained for a solved goal admits the achieved value and nothing worse than the recorded attainment beyond the configured relaxations, for every goal kind, nominal, option combination and epsilon. The models are compared with the code on generated intervals, goals, epsilons, options and store sequences (deterministic), and real IPOPT runs of all variants compare the stores after each priority with the model and re-evaluate every earlier goal on every later solution.",
         note="Trusted: Coq kernel + vm_compute; harness; IPOPT for the sampled end-to-end runs (solver regime, tolerance 1e-5; keep-soft/single-pass variants are judged on the priority objective as the property words it); vector goals (size>1) and the objective-constraint bookkeeping of keep_soft/single pass are exercised but not modelled. No axioms. Genuine defect repaired in /repo e4c1064 (enforce=\"self\").",
         ref="DESIGN.md §5 C02"),
+    "C01": dict(
+        technique='Coq proof (layout partition, theta-method row structure for arbitrary residual functions as Section variables) + correspondence of the executable Gallina transcription model against transcribe() via vm_compute on generated problems',
+        text="C01_layout_partition, C01_rows_are_theta_method, C01_nothing_skipped, C01_initial_rows are proved for every residual function, grid, theta, nominal vector, ensemble and decision vector; the model (Transcribe.v) is evaluated in Coq on generated DAE models (non-equidistant grids, t0 != 0, theta in {0,1/4,1/2,3/4,1}, 1-3 members, own control grids, histories) and compared row by row with nlp g of the real transcribe(); a few convex problems are solved with IPOPT and the model's rows must vanish at the returned point.",
+        note='Trusted: Coq kernel + vm_compute; harness generators / AST printers (the same AST is built in CasADi and printed as Gallina); transcribe() observed through nlp g/f/lbg/ubg/lbx/ubx at rational probe vectors (1e-8 relative; binary64 rounding not modelled); integrate_states, lookup tables, vector-valued variables and delayed feedback are outside this model. No axioms. A genuine defect (per-member parameters inlined as ensemble constants) was repaired in /repo f81f9b0.',
+        ref='DESIGN.md §5 C01'),
+    "C05": dict(
+        technique='Coq proof (bounds list aligned with the layout, box / pin / initial-derivative characterisations, physical-units lemma) + correspondence of x_bounds and initial-derivative rows against transcribe()',
+        text='C05_every_entry_boxed_once, C05_box_spec, C05_bound_kinds, C05_feasible_in_box, C05_history_pin, C05_initial_derivative hold for all problems; lbx/ubx and the initial-derivative rows of the real transcribe() are compared entry by entry with the model over bound kinds x nominals x grids x histories x members.',
+        note='Trusted: Coq kernel + vm_compute; harness generators / AST printers (the same AST is built in CasADi and printed as Gallina); transcribe() observed through nlp g/f/lbg/ubg/lbx/ubx at rational probe vectors (1e-8 relative; binary64 rounding not modelled); integrate_states, lookup tables, vector-valued variables and delayed feedback are outside this model. No axioms. Bounds merged from several sources are C19 (merge_bounds) and C14.',
+        ref='DESIGN.md §5 C05'),
+    "C06": dict(
+        technique='Coq proof (objective formula incl. the t0 instance, time-major alignment of path-constraint rows and their bounds) + correspondence of nlp f / g / lbg / ubg against the model; refuted statement for the recorded finding',
+        text='C06_objective_spec, C06_path_rows_every_time, C06_path_bounds_aligned, C06_rows_layout are proved for arbitrary objective / constraint functions; C06_t0_derivative_refuted records the known finding. The real transcribe() is compared on generated objectives, path objectives (depending on derivatives), path constraints with scalar / Timeseries / per-member bounds and point constraints, with unequal probabilities.',
+        note='Trusted: Coq kernel + vm_compute; harness generators / AST printers (the same AST is built in CasADi and printed as Gallina); transcribe() observed through nlp g/f/lbg/ubg/lbx/ubx at rational probe vectors (1e-8 relative; binary64 rounding not modelled); integrate_states, lookup tables, vector-valued variables and delayed feedback are outside this model. No axioms. Known finding C06-t0-derivative (open): the t0 instance of path expressions sees 0 for the derivative of algebraics/controls instead of the history slope.',
+        ref='DESIGN.md §5 C06'),
+    "C07": dict(
+        technique='Coq proof (non-interference of members in the transcription model; disjoint member blocks; default control sharing) + executable Gallina model of the scenario tree compared with ControlTreeMixin / PlanningMixin, metamorphic isolation runs on transcribe()',
+        text="C07_reads_only_own_slots, C07_member_blocks_disjoint, C07_data_isolated, C07_default_sharing are proved for all problems; ControlTree.v mirrors branch()/discretize_control and is compared (tree and sharing classes) with the real mixins on generated forecasts with ties, duplicates and coinciding prefixes, and every case is judged by 'share iff same branch', 'children partition the parent', 'at most k children', 'coinciding forecasts stay together'; isolation is additionally tested metamorphically on the implementation (perturb the last member, all other members' rows and boxes unchanged).",
+        note='Trusted: Coq kernel + vm_compute; harness generators / AST printers (the same AST is built in CasADi and printed as Gallina); transcribe() observed through nlp g/f/lbg/ubg/lbx/ubx at rational probe vectors (1e-8 relative; binary64 rounding not modelled); integrate_states, lookup tables, vector-valued variables and delayed feedback are outside this model. No axioms. The partition / monotonicity theorems for the tree model itself are not proved yet (checked per case); np.int16 index arrays are not modelled.',
+        ref='DESIGN.md §5 C07'),
+    "C08": dict(
+        technique='Coq proof (rows factor through the physical view; rescaling lemmas; bounds physical) + metamorphic pairs of real problems differing only in nominals',
+        text='C08_rows_factor_through_physical_view, C08_rescaling, C08_bounds_physical are proved for all problems; pairs of generated problems differing only in nominals (2^-10..2^10, non-dyadic) are transcribed and must give equal rows / objective at corresponding decision vectors and equal physical boxes, and each is compared with the model.',
+        note="Trusted: Coq kernel + vm_compute; harness generators / AST printers (the same AST is built in CasADi and printed as Gallina); transcribe() observed through nlp g/f/lbg/ubg/lbx/ubx at rational probe vectors (1e-8 relative; binary64 rounding not modelled); integrate_states, lookup tables, vector-valued variables and delayed feedback are outside this model. No axioms. Goal function nominals and the simulator's physical-unit accessors are covered by the C03/C17 and C09 checks.",
+        ref='DESIGN.md §5 C08'),
 }
 
 PENDING_REASON = "check not built yet (work in progress; see DESIGN.md §7 build order) — not claimed until its Coq model, theorems and correspondence check run clean on the unchanged tree"
